@@ -10,6 +10,7 @@ for n in $names; do
     out=$(SEEDED_NO_RECORD=1 VERIF_SEED=$s python3 tools/run_seeded.py $n 2>&1 | tail -1 | cut -c1-160)
     case "$out" in
       *"exit 1"*) echo "$n seed=$s caught" ;;
+      *"obsolete"*) echo "$n seed=$s obsolete" ;;
       *) echo "$n seed=$s NOT-CAUGHT: $out" ;;
     esac
   done
